@@ -56,6 +56,10 @@ class Transport:
         self.log.append(kind)
         if o == "timeout":
             raise self.exceptions.Timeout("t")
+        if o == "connectTimeout":          # subclasses of Timeout (ConnectTimeout is also a ConnectionError): timeouts all the same
+            raise self.exceptions.ConnectTimeout("ct")
+        if o == "readTimeout":
+            raise self.exceptions.ReadTimeout("rt")
         if o == "connError":
             raise self.exceptions.ConnectionError("c")
         return FakeResp(o, self.real)
@@ -189,8 +193,12 @@ def impl(case):
     return impl_http(case) if case["op"] == "http.history" else impl_exp(case)
 
 
+TIMEOUTS = ("timeout", "connectTimeout", "readTimeout")
+
+
 def model_req(case):
-    return {"op": case["op"], "outcomes": case["outcomes"], "calls": case.get("calls", []), "presubmit": case.get("presubmit", False)}
+    # the model knows one kind of timeout: every subclass of requests.exceptions.Timeout is one
+    return {"op": case["op"], "outcomes": ["timeout" if o in TIMEOUTS else o for o in case["outcomes"]], "calls": case.get("calls", []), "presubmit": case.get("presubmit", False)}
 
 
 def compare(case, o, m):
@@ -225,7 +233,7 @@ def oracle(case, o):
     outs = [tuple(x) if isinstance(x, list) else x for x in case["outcomes"]]
     if case["op"] == "http.history":
         k = 0
-        while k < len(outs) and outs[k] == "timeout":
+        while k < len(outs) and outs[k] in TIMEOUTS:
             k += 1
         if o["attempts"] > 1 + mx:
             bad.append(("C17:transport:too-many-attempts", f"{o['attempts']} attempts > 1+{mx}"))
@@ -306,11 +314,18 @@ def gen_cases(tier, rng):
         for seq in itertools.product(alpha, repeat=n):
             yield {"op": "http.history", "outcomes": [list(x) if isinstance(x, tuple) else x for x in seq]}
     for n in range(1, 5):
+        for seq in itertools.product([("ok", "x", 2), "connectTimeout", "readTimeout"], repeat=n):
+            yield {"op": "http.history", "outcomes": [list(x) if isinstance(x, tuple) else x for x in seq]}
+    for kind in ("connectTimeout", "readTimeout"):
+        for n in range(5, 9):
+            yield {"op": "http.history", "outcomes": [kind] * n}
+            yield {"op": "http.history", "outcomes": [kind] * (n - 1) + [["ok", "x", 2]]}
+    for n in range(1, 5):
         for seq in itertools.product([("ok", "x", 2), "timeout", "httpError", "reqError", "connError"], repeat=n):
             yield {"op": "http.history", "outcomes": [list(x) if isinstance(x, tuple) else x for x in seq]}
     for _ in range(2000 if thorough else 300):
         n = rng.randint(5, 12)
-        seq = [rng.choice(["timeout"] * 6 + [["ok", rng.choice(STATUSES), rng.randint(0, 9)], "httpError", "reqError", "connError"]) for _ in range(n)]
+        seq = [rng.choice(["timeout"] * 4 + ["connectTimeout", "readTimeout"] + [["ok", rng.choice(STATUSES), rng.randint(0, 9)], "httpError", "reqError", "connError"]) for _ in range(n)]
         yield {"op": "http.history", "outcomes": seq}
     # --- query before submission
     for n in range(1, 4):
@@ -351,7 +366,7 @@ def gen_cases(tier, rng):
             if r < 0.55:
                 outs.append(["ok", rng.choice(STATUSES[:2] * 3 + STATUSES), i + 1])
             elif r < 0.9:
-                outs.append("timeout")
+                outs.append(rng.choice(["timeout", "timeout", "connectTimeout", "readTimeout"]))
             else:
                 outs.append(rng.choice(["httpError", "reqError", "connError"]))
         calls = [rng.choice(["query", "results", "wait"]) for _ in range(rng.randint(1, 5))]
